@@ -18,6 +18,10 @@
 (*   Unchanged  both operands as before                                    *)
 (*   Commutes   a+b == b+a and a*b == b*a as Python objects' dict equality *)
 (*              whenever both could be formed (same function => equal)     *)
+(* and for the in-place forms a += b, a -= b, a *= b, a.update(b) on a     *)
+(* fresh copy of a: Value, the raise rules, Class (a's), Canonical,        *)
+(* b unchanged, and Bookkeeping (C14: reported variables / degree /        *)
+(* variable count bound the true ones afterwards).                         *)
 (***************************************************************************)
 EXTENDS Poly, Json, IOUtils
 Recs == ndJsonDeserialize(IOEnv.QV_RECS)
@@ -33,10 +37,14 @@ Case == ph = 2
 Quad(kind) == kind \in {"QUBO", "QUSO", "QUBOMatrix", "QUSOMatrix"}
 A == FromRaw(R.spin, R.a)
 B == FromRaw(R.spin, R.b)
-Expect(op) == CASE op = "add" -> Add(A, B) [] op = "sub" -> Sub(A, B) [] op = "mul" -> Mul(R.spin, A, B)
+\* a.update(b): b's coefficients replace a's
+Upd == Norm(DOMAIN A \cup DOMAIN B, LAMBDA m : IF m \in DOMAIN B THEN B[m] ELSE A[m])
+Expect(op) == CASE op \in {"add", "iadd"} -> Add(A, B) [] op \in {"sub", "isub"} -> Sub(A, B)
+                [] op \in {"mul", "imul"} -> Mul(R.spin, A, B) [] op = "update" -> Upd
+InPlace(op) == op \in {"iadd", "isub", "imul", "update"}
 \* the keys the operator has to write into a copy of the left operand
 Comb(m, n) == IF R.spin THEN SDiff(m, n) ELSE m \cup n
-WrittenKeys(op) == IF op = "mul" THEN {Comb(m, n) : m \in DOMAIN A, n \in DOMAIN B} ELSE DOMAIN B
+WrittenKeys(op) == IF op \in {"mul", "imul"} THEN {Comb(m, n) : m \in DOMAIN A, n \in DOMAIN B} ELSE DOMAIN B
 AllShort(op) == \A m \in WrittenKeys(op) : Cardinality(m) <= 2
 Clause(name, cond) == cond \/ (PrintT(<<"QVVIOL", name, c, R.id>>) /\ FALSE)
 Ops == 1..Len(R.ops)
@@ -45,8 +53,14 @@ Value == Clause("Value", ~Case \/ \A q \in Ops : O(q).raised # "" \/ FromRaw(R.s
 MustRaise == Clause("MustRaise", ~Case \/ \A q \in Ops : (Quad(R.kl) /\ Degree(Expect(O(q).op)) > 2) => O(q).raised = "KeyError")
 MayNotRaise == Clause("MayNotRaise", ~Case \/ \A q \in Ops : (~Quad(R.kl) \/ AllShort(O(q).op)) => O(q).raised = "")
 OnlyKeyError == Clause("OnlyKeyError", ~Case \/ \A q \in Ops : O(q).raised \in {"", "KeyError"})
-Class == Clause("Class", ~Case \/ \A q \in Ops : O(q).raised # "" \/ O(q).rkind \in {R.kl, R.kr})
+Class == Clause("Class", ~Case \/ \A q \in Ops : O(q).raised # "" \/ IF InPlace(O(q).op) THEN O(q).rkind = R.kl ELSE O(q).rkind \in {R.kl, R.kr})
+\* the in-place forms a += b, a -= b, a *= b, a.update(b): afterwards a's reported variables, degree and variable count
+\* bound the true ones (C14) - whatever fast path the pair of classes takes
+Bookkeeping == Clause("Bookkeeping", ~Case \/ \A q \in Ops : (O(q).raised = "" /\ InPlace(O(q).op)) =>
+                  LET res == FromRaw(R.spin, O(q).res) IN
+                  /\ VarsOf(res) \subseteq ToSet(O(q).vars) /\ (DOMAIN res = {} \/ Degree(res) <= O(q).deg)
+                  /\ O(q).nvars = Cardinality(ToSet(O(q).vars)))
 Canonical == Clause("Canonical", ~Case \/ \A q \in Ops : O(q).raised # "" \/ RawCanonical(O(q).res))
-Unchanged == Clause("Unchanged", ~Case \/ \A q \in Ops : O(q).a_same /\ O(q).b_same)
+Unchanged == Clause("Unchanged", ~Case \/ \A q \in Ops : (InPlace(O(q).op) \/ O(q).a_same) /\ O(q).b_same)
 Commutes == Clause("Commutes", ~Case \/ \A q \in Ops : O(q).comm \in {"na", "eq"})
 =============================================================================
